@@ -20,9 +20,12 @@ import (
 	"strings"
 )
 
+// dieErr: the source is not in the translatable fragment (caught per function: the tie of that
+// function then falls back to the correspondence run, see harness/cmd/c02 `fn` cases)
+type dieErr string
+
 func die(format string, a ...any) {
-	fmt.Fprintf(os.Stderr, format+"\n", a...)
-	os.Exit(1)
+	panic(dieErr(fmt.Sprintf(format, a...)))
 }
 
 // natExpr: an int-typed expression (shift counts, widths) as a Lean Nat expression
@@ -38,8 +41,17 @@ func natExpr(e ast.Expr) string {
 		}
 	case *ast.BinaryExpr:
 		switch x.Op {
-		case token.ADD, token.SUB, token.MUL:
+		case token.ADD, token.SUB, token.MUL, token.QUO, token.REM:
 			return "(" + natExpr(x.X) + " " + x.Op.String() + " " + natExpr(x.Y) + ")"
+		}
+	case *ast.CallExpr:
+		if id, ok := x.Fun.(*ast.Ident); ok && len(x.Args) == 1 {
+			switch id.Name {
+			case "uint", "int", "int64", "uint64": // non-negative widths / counts
+				return natExpr(x.Args[0])
+			case "BitsByteCount":
+				return "((" + natExpr(x.Args[0]) + " + 7) / 8)"
+			}
 		}
 	}
 	die("unsupported int expression %T", e)
@@ -68,6 +80,17 @@ func bvExpr(e ast.Expr) string {
 		// conversions int64(x) / uint64(x): same bits
 		if id, ok := x.Fun.(*ast.Ident); ok && (id.Name == "int64" || id.Name == "uint64") && len(x.Args) == 1 {
 			return bvExpr(x.Args[0])
+		}
+		// math/bits on uint64
+		if se, ok := x.Fun.(*ast.SelectorExpr); ok && len(x.Args) == 1 {
+			if id, ok := se.X.(*ast.Ident); ok && id.Name == "bits" {
+				switch se.Sel.Name {
+				case "ReverseBytes64":
+					return "(bswap64 " + bvExpr(x.Args[0]) + ")"
+				case "Reverse64":
+					return "(" + bvExpr(x.Args[0]) + ").reverse"
+				}
+			}
 		}
 	case *ast.BinaryExpr:
 		switch x.Op {
@@ -430,18 +453,10 @@ func packageConsts(f *ast.File) map[string]string {
 	return m
 }
 
-func main() {
-	if len(os.Args) < 2 {
-		die("usage: c02bits <repo>")
-	}
-	repo := os.Args[1]
+// ---- the four translated functions
+
+func trReverseBytes64(repo string) string {
 	fset := token.NewFileSet()
-
-	var sb strings.Builder
-	header := "/-! GENERATED by /verif/extract/c02bits from pkg/bitio/reversebytes64.go, pkg/decode/read.go,\n    internal/mathx/float16.go and internal/mathx/float80.go — do not edit. -/\n"
-	sb.WriteString("import FqModel.Scalar\n" + header + "namespace FqModel.Gen.BitFns\nopen FqModel.Scalar (roundF64 negF64)\n\n")
-
-	// ---- ReverseBytes64
 	f, err := parser.ParseFile(fset, filepath.Join(repo, "pkg/bitio/reversebytes64.go"), nil, 0)
 	if err != nil {
 		die("%v", err)
@@ -457,7 +472,7 @@ func main() {
 	if !ok || sw.Tag != nil {
 		die("ReverseBytes64: expected a tagless switch")
 	}
-	sb.WriteString("/-- bitio.ReverseBytes64; `none` = the default branch (panic) -/\n")
+	var sb strings.Builder
 	sb.WriteString("def reverseBytes64 (nBits : Nat) (n : BitVec 64) : Option (BitVec 64) :=\n")
 	sawDefault := false
 	for i, st := range sw.Body.List {
@@ -470,72 +485,128 @@ func main() {
 			sb.WriteString("  else none\n")
 			continue
 		}
-		if len(cc.List) != 1 || len(cc.Body) != 1 {
+		if len(cc.List) != 1 || len(cc.Body) < 1 {
 			die("ReverseBytes64: unexpected case shape")
 		}
 		cond, ok := cc.List[0].(*ast.BinaryExpr)
 		if !ok || cond.Op != token.LEQ {
 			die("ReverseBytes64: case condition must be nBits <= K")
 		}
-		ret, ok := cc.Body[0].(*ast.ReturnStmt)
+		// body: local definitions `x := e` (int typed) followed by a return
+		lets := ""
+		for _, bst := range cc.Body[:len(cc.Body)-1] {
+			as, ok := bst.(*ast.AssignStmt)
+			if !ok || as.Tok != token.DEFINE || len(as.Lhs) != 1 || len(as.Rhs) != 1 {
+				die("ReverseBytes64: unexpected statement in case body")
+			}
+			lets += "let " + as.Lhs[0].(*ast.Ident).Name + " := " + natExpr(as.Rhs[0]) + "; "
+		}
+		ret, ok := cc.Body[len(cc.Body)-1].(*ast.ReturnStmt)
 		if !ok || len(ret.Results) != 1 {
-			die("ReverseBytes64: case body must be a return")
+			die("ReverseBytes64: case body must end in a return")
 		}
 		kw := "  else if"
 		if i == 0 {
 			kw = "  if"
 		}
-		fmt.Fprintf(&sb, "%s %s ≤ %s then some %s\n", kw, natExpr(cond.X), natExpr(cond.Y), bvExpr(ret.Results[0]))
+		val := bvExpr(ret.Results[0])
+		if lets != "" {
+			val = "(" + lets + val + ")"
+		}
+		fmt.Fprintf(&sb, "%s %s ≤ %s then some %s\n", kw, natExpr(cond.X), natExpr(cond.Y), val)
 	}
 	if !sawDefault {
 		die("ReverseBytes64: no default branch")
 	}
+	return sb.String()
+}
 
-	// ---- trySEndian: sign test + two's complement
+// the sign test and the two's complement expression: in trySEndian itself, or in the function it
+// returns the result of (mathx.TwosComplement)
+func trTwosComplement(repo string) string {
+	fset := token.NewFileSet()
 	f2, err := parser.ParseFile(fset, filepath.Join(repo, "pkg/decode/read.go"), nil, 0)
 	if err != nil {
 		die("%v", err)
 	}
-	fs := findFunc(f2, "trySEndian")
-	var ifs *ast.IfStmt
-	for _, st := range fs.Body.List {
-		if s, ok := st.(*ast.IfStmt); ok {
-			if be, ok := s.Cond.(*ast.BinaryExpr); ok && be.Op == token.GTR {
-				ifs = s
+	fn := findFunc(f2, "trySEndian")
+	// follow `return mathx.TwosComplement(nBits, n), nil`
+	for _, st := range fn.Body.List {
+		if rs, ok := st.(*ast.ReturnStmt); ok && len(rs.Results) == 2 {
+			if ce, ok := rs.Results[0].(*ast.CallExpr); ok {
+				if se, ok := ce.Fun.(*ast.SelectorExpr); ok && se.Sel.Name == "TwosComplement" && len(ce.Args) == 2 {
+					a0, ok0 := ce.Args[0].(*ast.Ident)
+					a1, ok1 := ce.Args[1].(*ast.Ident)
+					if !ok0 || !ok1 || a0.Name != "nBits" || a1.Name != "n" {
+						die("trySEndian: unexpected arguments to TwosComplement")
+					}
+					f3, err := parser.ParseFile(fset, filepath.Join(repo, "internal/mathx/num.go"), nil, 0)
+					if err != nil {
+						die("%v", err)
+					}
+					fn = findFunc(f3, "TwosComplement")
+					ps := fn.Type.Params.List
+					if len(ps) != 2 || ps[0].Names[0].Name != "nBits" || ps[1].Names[0].Name != "n" {
+						die("TwosComplement: unexpected parameters")
+					}
+				}
 			}
 		}
 	}
-	if ifs == nil || ifs.Else == nil {
-		die("trySEndian: sign test `if … > 0 { … } else { … }` not found")
+	var ifs *ast.IfStmt
+	var after []ast.Stmt
+	for i, st := range fn.Body.List {
+		if s, ok := st.(*ast.IfStmt); ok {
+			if be, ok := s.Cond.(*ast.BinaryExpr); ok && be.Op == token.GTR {
+				ifs = s
+				after = fn.Body.List[i+1:]
+			}
+		}
+	}
+	if ifs == nil {
+		die("%s: sign test `if … > 0` not found", fn.Name.Name)
 	}
 	cond := ifs.Cond.(*ast.BinaryExpr)
 	if bl, ok := cond.Y.(*ast.BasicLit); !ok || bl.Value != "0" {
-		die("trySEndian: sign test must compare with 0")
+		die("%s: sign test must compare with 0", fn.Name.Name)
 	}
-	assigned := func(b *ast.BlockStmt) ast.Expr {
-		if len(b.List) != 1 {
-			die("trySEndian: branch must be a single assignment")
+	// a branch is `s = e` or `return e`
+	branch := func(sts []ast.Stmt) ast.Expr {
+		if len(sts) < 1 {
+			die("%s: empty branch", fn.Name.Name)
 		}
-		as, ok := b.List[0].(*ast.AssignStmt)
-		if !ok || len(as.Lhs) != 1 || len(as.Rhs) != 1 || as.Tok != token.ASSIGN {
-			die("trySEndian: branch must be a single assignment")
+		switch x := sts[0].(type) {
+		case *ast.AssignStmt:
+			if len(x.Lhs) == 1 && len(x.Rhs) == 1 && x.Tok == token.ASSIGN {
+				if id, ok := x.Lhs[0].(*ast.Ident); ok && id.Name == "s" {
+					return x.Rhs[0]
+				}
+			}
+		case *ast.ReturnStmt:
+			if len(x.Results) == 1 {
+				return x.Results[0]
+			}
 		}
-		if id, ok := as.Lhs[0].(*ast.Ident); !ok || id.Name != "s" {
-			die("trySEndian: branch must assign s")
-		}
-		return as.Rhs[0]
+		die("%s: branch must assign s or return", fn.Name.Name)
+		return nil
 	}
-	thenE := assigned(ifs.Body)
-	elseB, ok := ifs.Else.(*ast.BlockStmt)
-	if !ok {
-		die("trySEndian: else must be a block")
+	thenE := branch(ifs.Body.List)
+	var elseE ast.Expr
+	if ifs.Else != nil {
+		eb, ok := ifs.Else.(*ast.BlockStmt)
+		if !ok {
+			die("%s: else must be a block", fn.Name.Name)
+		}
+		elseE = branch(eb.List)
+	} else {
+		elseE = branch(after)
 	}
-	elseE := assigned(elseB)
-	sb.WriteString("\n/-- read.go trySEndian: `if <cond> > 0 { s = <then> } else { s = <else> }` on uint64/int64 -/\n")
-	sb.WriteString("def twosComplement (nBits : Nat) (n : BitVec 64) : Int :=\n")
-	fmt.Fprintf(&sb, "  if %s ≠ 0#64 then %s.toInt else %s.toInt\n", bvExpr(cond.X), bvExpr(thenE), bvExpr(elseE))
+	return "def twosComplement (nBits : Nat) (n : BitVec 64) : Int :=\n" +
+		fmt.Sprintf("  if %s ≠ 0#64 then %s.toInt else %s.toInt\n", bvExpr(cond.X), bvExpr(thenE), bvExpr(elseE))
+}
 
-	// ---- mathx.expandF16ToF32 (uint32 arithmetic)
+func trExpandF16(repo string) string {
+	fset := token.NewFileSet()
 	f3, err := parser.ParseFile(fset, filepath.Join(repo, "internal/mathx/float16.go"), nil, 0)
 	if err != nil {
 		die("%v", err)
@@ -544,14 +615,16 @@ func main() {
 	t16 := &tr{wrap: "u32", mod: "2 ^ 32", consts: packageConsts(f3), rename: map[string]string{"in": "in_"},
 		bigMant: map[string]string{}, bigExp: map[string]string{}, fn: "expandF16ToF32", fuel: 32}
 	body16 := t16.block(fe.Body.List, "  ")
-	sb.WriteString("\n/-- uint32 wrap-around -/\ndef u32 (n : Nat) : Nat := n % 2 ^ 32\n\n")
+	var sb strings.Builder
 	for _, h := range t16.helpers {
 		sb.WriteString(h + "\n")
 	}
-	sb.WriteString("/-- mathx.expandF16ToF32 (float16.go), statement by statement; an `if` without else duplicates the rest -/\n")
 	sb.WriteString("def expandF16ToF32 (in_ : Nat) : Nat :=\n" + body16 + "\n")
+	return sb.String()
+}
 
-	// ---- mathx.Float80.Float64 (uint64 fields, big.Float with 64 bits of precision, one rounding)
+func trF80to64(repo string) string {
+	fset := token.NewFileSet()
 	f4, err := parser.ParseFile(fset, filepath.Join(repo, "internal/mathx/float80.go"), nil, 0)
 	if err != nil {
 		die("%v", err)
@@ -568,10 +641,121 @@ func main() {
 	t80 := &tr{wrap: "u64", mod: "2 ^ 64", consts: packageConsts(f4), rename: map[string]string{},
 		bigMant: map[string]string{}, bigExp: map[string]string{}, fn: "f80to64", fuel: 0}
 	body80 := t80.block(f64fn.Body.List, "  ")
-	sb.WriteString("\n/-- mathx.Float80.Float64 (float80.go): `roundF64 false m e` stands for the exact big.Float m·2^e\n")
-	sb.WriteString("    (precision 64 = the whole significand) rounded by (*big.Float).Float64; `negF64` for `v = -v` -/\n")
+	var sb strings.Builder
+	for _, h := range t80.helpers {
+		sb.WriteString(h + "\n")
+	}
 	sb.WriteString("def f80to64 (f_se f_m : Nat) : Nat :=\n" + body80 + "\n")
+	return sb.String()
+}
 
+// defBlocks: name -> whitespace-normalised text of every `def name …` block (up to the next blank line)
+func defBlocks(text string) map[string]string {
+	m := map[string]string{}
+	lines := strings.Split(text, "\n")
+	for i := 0; i < len(lines); i++ {
+		if strings.HasPrefix(lines[i], "def ") {
+			name := strings.Fields(lines[i])[1]
+			var blk []string
+			for j := i; j < len(lines) && strings.TrimSpace(lines[j]) != ""; j++ {
+				l := lines[j]
+				if k := strings.Index(l, "--"); k >= 0 {
+					l = l[:k]
+				}
+				blk = append(blk, l)
+			}
+			m[name] = strings.Join(strings.Fields(strings.Join(blk, " ")), " ")
+		}
+	}
+	return m
+}
+
+func main() {
+	if len(os.Args) < 2 {
+		fmt.Fprintln(os.Stderr, "usage: c02bits <repo>")
+		os.Exit(2)
+	}
+	repo := os.Args[1]
+	// the hand-written model, to say whether the translation IS the model text
+	modelPath := filepath.Join("..", "lean", "FqModel", "Scalar.lean")
+	if d := os.Getenv("VERIF_DIR"); d != "" {
+		modelPath = filepath.Join(d, "lean", "FqModel", "Scalar.lean")
+	}
+	modelSrc, _ := os.ReadFile(modelPath)
+	model := defBlocks(string(modelSrc))
+
+	type fnT struct {
+		name    string
+		helpers []string // helper defs the proofs mention: aliased to the model when not generated
+		doc     string
+		run     func(string) string
+	}
+	fns := []fnT{
+		{"reverseBytes64", nil, "bitio.ReverseBytes64 (reversebytes64.go); `none` = the default branch (panic)", trReverseBytes64},
+		{"twosComplement", nil, "read.go trySEndian (or mathx.TwosComplement it returns): `if <cond> > 0 { <then> } else { <else> }` on uint64/int64", trTwosComplement},
+		{"expandF16ToF32", []string{"expandF16ToF32_loop0"}, "mathx.expandF16ToF32 (float16.go), statement by statement; an `if` without else duplicates the rest", trExpandF16},
+		{"f80to64", nil, "mathx.Float80.Float64 (float80.go): `roundF64 false m e` = the exact big.Float m·2^e (precision 64) rounded by (*big.Float).Float64; `negF64` = `v = -v`", trF80to64},
+	}
+
+	var sb strings.Builder
+	sb.WriteString("import FqModel.Scalar\n")
+	sb.WriteString("/-! GENERATED by /verif/extract/c02bits from pkg/bitio/reversebytes64.go, pkg/decode/read.go,\n")
+	sb.WriteString("    internal/mathx/num.go, float16.go and float80.go — do not edit.\n")
+	sb.WriteString("    For every function f:  f_translated  — the source is in the translatable fragment (else f is an\n")
+	sb.WriteString("    alias of the model and the tie of f is the correspondence run `fn` of harness/cmd/c02);\n")
+	sb.WriteString("    f_same_as_model — the translation is, token for token, the text of the model in FqModel/Scalar.lean\n")
+	sb.WriteString("    (then Props.C02 proves Gen.f = Model.f by definitional unfolding). -/\n")
+	sb.WriteString("namespace FqModel.Gen.BitFns\nopen FqModel.Scalar (roundF64 negF64 bswap64 u32 u64)\n")
+
+	for _, fn := range fns {
+		var text string
+		reason := ""
+		func() {
+			defer func() {
+				if r := recover(); r != nil {
+					if de, ok := r.(dieErr); ok {
+						reason = string(de)
+						return
+					}
+					reason = fmt.Sprintf("translator fault: %v", r)
+				}
+			}()
+			text = fn.run(repo)
+		}()
+		translated := reason == ""
+		same := false
+		if translated {
+			gen := defBlocks(text)
+			same = true
+			for name, blk := range gen {
+				if model[name] != blk {
+					same = false
+				}
+			}
+			if _, ok := gen[fn.name]; !ok {
+				translated, same, reason = false, false, "no definition produced"
+			}
+		}
+		sb.WriteString("\n/-- " + fn.doc + " -/\n")
+		if translated {
+			sb.WriteString(text)
+			gen := defBlocks(text)
+			for _, h := range fn.helpers {
+				if _, ok := gen[h]; !ok {
+					fmt.Fprintf(&sb, "\ndef %s := @FqModel.Scalar.%s\n", h, h)
+				}
+			}
+		} else {
+			reason = strings.ReplaceAll(reason, "\n", " ")
+			fmt.Fprintf(&sb, "-- NOT TRANSLATED: %s\n", reason)
+			fmt.Fprintf(&sb, "def %s := @FqModel.Scalar.%s\n", fn.name, fn.name)
+			for _, h := range fn.helpers {
+				fmt.Fprintf(&sb, "\ndef %s := @FqModel.Scalar.%s\n", h, h)
+			}
+		}
+		fmt.Fprintf(&sb, "\ndef %s_translated : Bool := %v\n", fn.name, translated)
+		fmt.Fprintf(&sb, "def %s_same_as_model : Bool := %v\n", fn.name, same)
+	}
 	sb.WriteString("\nend FqModel.Gen.BitFns\n")
 	fmt.Print(sb.String())
 }
